@@ -10,6 +10,7 @@ from . import rules_event as RE
 from . import rules_wiring as RW
 from . import rules_layout as RL
 from . import rules_panic as RPN
+from . import rules_const as RC
 
 TRUSTED_COMMON = [
     'rustc nightly: MIR construction, type checking and callee resolution (Instance::try_resolve)',
@@ -96,8 +97,13 @@ def c08(ctx, rep, tier):
     RPN.check_no_panic(ctx, rep, tier)
 
 
+def c20(ctx, rep, tier):
+    RC.check_const(ctx, rep, tier)
+
+
 LT = 'MIR decision-table extraction of every KeyboardLayout impl (value-set abstract interpretation, Us104Key fall-through and Modifiers predicates inlined); '
 RULES = {
+    'C20': (c20, 'proof', 'compiler facts (is_const_fn, visibility) + generated compile-only no_std probe crate (const/static initialisers, Send+Sync bounds) with a compile-fail canary'),
     'C08': (c08, 'proof', 'panic-site inventory (Assert terminators, panic entry points, unreachable) + abstract interpretation of every public operation over inputs x reachable-state invariant (fixpoint over field writers); no class ends in a trap'),
     'C03': (c03, 'other', LT + 'agreement of the level-selecting cells with frozen per-standard reference tables'),
     'C09': (c09, 'proof', LT + 'relational rule between the Map and Ignore tables and the layout\'s own letter assignment (no oracle)'),
